@@ -20,7 +20,7 @@ EXPLANATION = ("Swap symmetry as lemmas over the stage contracts plus relational
                "evaluate(ref, pred) through the real evaluator on enumerated and seeded inputs with uniquely determined matching.")
 PR = "panoptica.panoptica_result."
 EC = "panoptica.utils.edge_case_handling."
-STAGE_MODULES = ["C09", "C03", "C04"]
+STAGE_MODULES = ["C05", "C09", "C03", "C04"]
 
 
 def unit_metric_swap(ctx, kind, dtype):
@@ -184,23 +184,18 @@ def build(ctx):
             ctx.unit(f"metric-swap[{kind},{dt}]", lambda k=kind, d=dt: unit_metric_swap(ctx, k, d))
     ctx.unit("result-swap", lambda: unit_result_swap(ctx))
     ctx.unit("lemmas", lambda: unit_lemmas(ctx))
-    import importlib
-    from .C01 import _SubCtx
     for m in STAGE_MODULES:
-        importlib.import_module(f"props.{m}").build(_SubCtx(ctx, m))
+        include_stage(ctx, m)
     from . import C07
-    ctx.unit("stage C07: lemmas", lambda: C07.unit_lemmas(_SubCtx(ctx, "C07")))
+    ctx.unit("stage C07: lemmas", lambda: C07.unit_lemmas(SubCtx(ctx, "C07")))
     ctx.trust("the composition (candidates -> order -> selection -> relabelling -> per-pair metrics -> counts) is argued over the contracts of C09/C03/C04/C02/C06/C07; "
               "the induction schema is applied outside the solver (base cases are vacuous: no earlier index)")
     ctx.add_bounded("c11-swap", "c11.bounded", exhaustive_1d=5 if ctx.tier == "quick" else 6, n_random=400 if ctx.tier == "quick" else 8000)
 
 
 def concretise(ctx, o, r):
-    st = (o.info or {}).get("stage")
-    if st:
-        import importlib
-        fn = getattr(importlib.import_module(f"props.{st}"), "concretise", None)
-        return fn(ctx, o, r) if fn else None
+    if (o.info or {}).get("stage"):
+        return stage_concretise(ctx, o, r)
     if o.replay == "c11.metric":
         return C06.concretise(ctx, o, r)
     if o.replay == "c11.result":
